@@ -10,8 +10,9 @@ used = {}
 for d in sorted(glob.glob('/verif/seeded/*/meta.json')):
     m = json.load(open(d))
     used.setdefault(m['property'], []).append(f"{m['name'].replace('-', ' ')} ({m['needs_to_manifest'][:110]})")
-GROUPS = [("A", "C01", "C05"), ("B", "C02", "C09"), ("C", "C03", "C07"), ("D", "C04", "C15"), ("E", "C06", "C12"),
-          ("F", "C08", "C10"), ("G", "C11", "C14"), ("H", "C13", "C20"), ("I", "C16", "C18"), ("J", "C17", "C19")]
+GROUPS = [("A", "C01", "C09"), ("B", "C02", "C10"), ("C", "C03", "C15"), ("D", "C04", "C08"), ("E", "C05", "C07"),
+          ("F", "C06", "C18"), ("G", "C11", "C19"), ("H", "C12", "C14"), ("I", "C13", "C17"), ("J", "C16", "C20")]
+ROUND_NOTE = sys.argv[3] if len(sys.argv) > 3 else ""
 HEAD = open('/verif/tools/SEED_PROMPT_HEAD.txt').read()
 for g, a, b in GROUPS:
     wt, out = f"{wtp}-{g}", f"{rd}/out-{g}"
@@ -22,6 +23,11 @@ for g, a, b in GROUPS:
         p = props[pid]
         t += f"\n{pid} — {p['title']}\nStatement: {p['statement']}\nQuantified over: {p['quantifier']['text']}\n"
         t += "Already explored by earlier contributors for this property (do NOT reuse these ideas; pick a different clause of the statement, a different code path, a different record kind or a different triggering condition): " + "; ".join(used.get(pid, [])) + ".\n"
+    if ROUND_NOTE:
+        t += "\n" + open(ROUND_NOTE).read()
+        open(f"{rd}/prompt-{g}.txt", "w").write(t)
+        print(g, a, b, len(t))
+        continue
     t += "\nThis is the fourth round: the obvious ideas and most input-shaped ideas are taken. Prefer changes that need a particular ORDER OF EVENTS to manifest — an interleaving of two operations, a completion or reply arriving late or twice, a crash/restart or an injected failure at a particular point, state left behind by an earlier operation — or two cooperating sites that each look fine alone. Boundary values taken from constants in the code and configuration-dependent behaviour are welcome too. Read the statement clause by clause and look for a clause or call site none of the explored ideas touches.\n"
     open(f"{rd}/prompt-{g}.txt", "w").write(t)
     print(g, a, b, len(t))
